@@ -385,7 +385,9 @@ end PGV.Proofs.Total
 namespace PGV.Proofs.Total
 open PGV PGV.Model
 
-theorem NP_keyStr (k : GoVal) : NP (keyStr k) := by unfold keyStr; np
+theorem NP_keyStr (e : Ext) (k : GoVal) : NP (keyStr e k) := by
+  have := fun x => NP_sprintExt e x
+  unfold keyStr; np
 theorem NP_nonStruct (n : Bytes) (v : GoVal) (g : Bool) (st : WSt) : NP (nonStruct n v g st) := by unfold nonStruct; np
 
 mutual
@@ -462,7 +464,7 @@ theorem NP_entriesLoop (cfg : StructCfg) (pathOpen : Bytes) (es : Entries) (st :
   | nil => rw [entriesLoop]; exact NP_pure _
   | cons k v rest =>
     rw [entriesLoop]
-    exact NP_bind _ _ (NP_keyStr k) fun ks =>
+    exact NP_bind _ _ (NP_keyStr _ k) fun ks =>
       NP_bind _ _ (NP_validate cfg _ v true _) fun st1 => NP_entriesLoop cfg pathOpen rest st1
 end
 
